@@ -202,7 +202,22 @@ func checkCtorSiblings(c *fw.Ctx) {
 			if !withID {
 				// no constructor other than WithEventID may preset the cached ID
 				stores := deepFieldStores(fn, "eventV1", "EventIDRaw")
-				c.Check(len(stores) == 0, rule, short+" does not preset the event ID", c.P.Pos(fn.Pos()), "", "EventIDRaw is written by a constructor that is not given an ID")
+				// (a store that sits in a helper shared with the WithEventID constructors, behind an
+				// option, is not evidence: only a store in the constructor itself is)
+				own := 0
+				for _, ds := range stores {
+					if ds.Fr == nil {
+						own++
+					}
+				}
+				switch {
+				case own > 0:
+					c.Fail(rule, short+" does not preset the event ID", c.P.Pos(fn.Pos()), "EventIDRaw is written by a constructor that is not given an ID")
+				case len(stores) > 0:
+					c.Undecided(rule, short+" does not preset the event ID", "EventIDRaw is written in a helper the constructor shares; under which option was not traced")
+				default:
+					c.Ok(rule, short+" does not preset the event ID", c.P.Pos(fn.Pos()), "")
+				}
 			}
 			// room ID validated
 			gate := fw.GuardCond("room ID validated", func(v ssa.Value) (bool, bool) {
